@@ -293,23 +293,26 @@ impl<F: Write + Seek> Directory<F> {
             };
         }
         match ordering {
+            // In each case the link is written to the file before it is
+            // set in memory: if the write fails, the new entry must not be
+            // found by a later lookup while the file does not link to it.
             Ordering::Less => {
-                self.dir_entry_mut(prev_sibling_id).left_sibling = stream_id;
                 let mut sector =
                     self.seek_within_dir_entry(prev_sibling_id, 68)?;
                 sector.write_le_u32(stream_id)?;
+                self.dir_entry_mut(prev_sibling_id).left_sibling = stream_id;
             }
             Ordering::Greater => {
-                self.dir_entry_mut(prev_sibling_id).right_sibling = stream_id;
                 let mut sector =
                     self.seek_within_dir_entry(prev_sibling_id, 72)?;
                 sector.write_le_u32(stream_id)?;
+                self.dir_entry_mut(prev_sibling_id).right_sibling = stream_id;
             }
             Ordering::Equal => {
                 debug_assert_eq!(prev_sibling_id, parent_id);
-                self.dir_entry_mut(parent_id).child = stream_id;
                 let mut sector = self.seek_within_dir_entry(parent_id, 76)?;
                 sector.write_le_u32(stream_id)?;
+                self.dir_entry_mut(parent_id).child = stream_id;
             }
         }
         // TODO: rebalance tree
